@@ -1202,3 +1202,35 @@ def main(ctx):
         "44 cosmologies in turn": (lambda: {}, [("cosmo", om) for om in R_OMS],
                                    lambda cache, q: [np.asarray(Cosmo(omega_m=q[1], omega_l=0.7, flat=False).Dm(0.2, 1.7)), np.asarray(Cosmo(omega_m=q[1]).Da(0.0, np.array([0.5, 1.0])))]),
     })
+
+    # ------------------------------------------------------------ a stale errno in the calling thread
+    # the C library's errno is process state the caller may leave in any condition: an unrelated, already handled domain
+    # error (math.acos(2) in a try/except, log10(0)) immediately before a call must not change what the call returns
+    def one_errno(case, rec):
+        kw, poison = case
+        c = make(kw)
+
+        def spoil():
+            for f, a in ((math.acos, 2.0), (math.log10, 0.0), (math.sqrt, -1.0), (math.exp, 1e6)):
+                if poison in (f.__name__, "all"):
+                    try:
+                        f(a)
+                    except (ValueError, OverflowError):
+                        pass
+        for meth, args in BATTERY_LONG:
+            ref = getattr(c, meth)(*args)
+            try:
+                spoil()
+                got = getattr(c, meth)(*args)
+                spoil()
+                gv = getattr(c, meth)(np.array([args[0], args[0]]), *args[1:]) if meth in VEC1 or meth in VEC2 else None
+            except Exception as e:
+                return rec.fail(case, "%s%r raised %s: %s right after an unrelated, handled math domain error (%s) in the same thread" % (meth, args, type(e).__name__, e, poison))
+            if bits(got) != bits(ref):
+                return rec.fail(case, "%s%r = %r right after an unrelated math domain error, %r otherwise" % (meth, args, got, ref))
+            if gv is not None and bits(float(np.asarray(gv).reshape(-1)[0])) != bits(ref):
+                return rec.fail(case, "%s (array form) after an unrelated math domain error differs: %r vs %r" % (meth, np.asarray(gv).tolist(), ref))
+        rec.ok(case, outcome="errno:%s" % poison, nontrivial=True, calls=3 * len(BATTERY_LONG))
+
+    eunits = [(kw, p) for kw in list(cosmos)[:6] for p in ("acos", "log10", "sqrt", "exp", "all")]
+    ctx.lattice("stale-errno", eunits, one_errno, bounds=dict(spoilers=["math.acos(2)", "math.log10(0)", "math.sqrt(-1)", "math.exp(1e6)", "all"], cosmologies=6))
